@@ -372,7 +372,13 @@ def _send_up(d, up, rnd, ob, CRTPPacket):
     setpoint), and the caller's packet must read the same after every send.  Returns the (header, data) sequence sent."""
     sent = []
     for (h, data) in up:
-        pk = CRTPPacket(h, list(data))
+        if rnd.random() < 0.25:
+            # built the way code that relays raw packets does: header byte assigned as it is
+            pk = CRTPPacket()
+            pk.header = h
+            pk.data = list(data)
+        else:
+            pk = CRTPPacket(h, list(data))
         for _ in range(rnd.choice((1, 1, 1, 2, 3))):
             d.send_packet(pk)
             sent.append((h, data))
